@@ -75,7 +75,7 @@ def check_api(case, ctx):
     import verif.axis
 
     spec = case["spec"]
-    axes = case["axes"]
+    axes = case.get("axes") or ([case["axis"]] if case.get("axis") not in (None, "all") else ["no", "time", "leadtime", "location"])
     ds = model.DS(spec)
     n_in = len(spec["inputs"])
     ctx.label("inputs=%d" % n_in)
@@ -110,7 +110,8 @@ def check_api(case, ctx):
     dscheck.check_all_axis(ctx, ID, spec, ds, menu[:6], lambda: mat.make_data(spec))
     # independence: alter the non-missing forecast values of one input
     if n_in > 1:
-        k = case["alter"] % n_in
+        k = case.get("alter", 0) % n_in
+        case = dict(case, delta=case.get("delta", 1.25))
         spec2 = copy.deepcopy(spec)
         d = spec2["inputs"][k]
         d["fcst"] = [[[None if v is None else v + case["delta"] for v in row] for row in pl] for pl in d["fcst"]]
